@@ -21,13 +21,13 @@ def run(F, S, R, tier):
     # 1. the reorg decision
     R.guard("cmp/reorg", lambda: K.cmp_table(
         R, "cmp/reorg", vb, A_WORK, B_TIP, {"<": "STAY", "=": "STAY", ">": "REORG"},
-        K.classify_reach([ST + "insert_tip_header$"], "REORG", "STAY"), what="tip moves only to a strictly heavier chain", min_sites=1))
+        K.classify_reach([ST + "insert_tip_header$"], "REORG", "STAY"), what="tip moves only to a strictly heavier chain", min_sites=1, arith=(["op:add"], [])))
     R.guard("cmp/reorg-publish", lambda: K.cmp_table(
         R, "cmp/reorg-publish", vb, A_WORK, B_TIP, {"<": "KEEP", "=": "KEEP", ">": "NEWTIP"},
-        K.classify_reach([r"Shared::new_snapshot$"], "NEWTIP", "KEEP"), what="a new tip snapshot is published only for a strictly heavier chain", min_sites=1))
+        K.classify_reach([r"Shared::new_snapshot$"], "NEWTIP", "KEEP"), what="a new tip snapshot is published only for a strictly heavier chain", min_sites=1, arith=(["op:add"], [])))
     R.guard("cmp/reorg-side", lambda: K.cmp_table(
         R, "cmp/reorg-side", vb, A_WORK, B_TIP, {"<": "SIDE", "=": "SIDE", ">": "MAIN"},
-        K.classify_reach([ST + "insert_block_ext$"], "SIDE", "MAIN"), what="a not-heavier block is stored as an unverified side block (ext without verdict)", min_sites=1))
+        K.classify_reach([ST + "insert_block_ext$"], "SIDE", "MAIN"), what="a not-heavier block is stored as an unverified side block (ext without verdict)", min_sites=1, arith=(["op:add"], [])))
 
     # 2. the value compared is the value stored and published
     def work():
